@@ -285,7 +285,7 @@ def run_shard(spec, seed, tier):
             else:
                 out.append(f)
         return out
-    n = 400 if tier == "quick" else 5000
+    n = 1000 if tier == "quick" else 8000
     found = core.hyp_search(mutated_case(), body, seed, n, shrink_budget_s=30)
     if found:
         res.failures.extend(found)
